@@ -198,6 +198,21 @@ def theorem_check(pid: str) -> dict:
     return res
 
 
+def coqchk(pid: str) -> dict:
+    """Thorough tier: re-check the compiled property file and everything it depends on with the
+    independent checker and record the axioms it reports."""
+    rc, out = run(["timeout", "1700", "coqchk", "-silent", "-o", "-Q", ".", "FrameModel", f"FrameModel.Properties.{pid}"],
+                  cwd=COQ, timeout=1800)
+    ax = []
+    m = re.search(r"\* Axioms:(.*?)\n\s*\n\* Constants/Inductives relying on type-in-type", out, flags=re.S)
+    if m:
+        ax = [a.strip() for a in m.group(1).replace("<none>", "").split("\n") if a.strip()]
+    clean = all(re.search(rf"\* {k}: <none>", out) for k in (
+        "Constants/Inductives relying on type-in-type", "Constants/Inductives relying on unsafe \\(co\\)fixpoints",
+        "Inductives whose positivity is assumed"))
+    return {"ok": rc == 0 and clean, "axioms": ax, "tail": out[-600:]}
+
+
 # --------------------------------------------------------------------------
 # evaluating the model inside Coq
 # --------------------------------------------------------------------------
@@ -297,6 +312,8 @@ def write_evidence(ctx: Ctx, thm: dict, coverage: dict, violations: int, assumpt
         ],
         "theorems": thm.get("theorems", []),
     }
+    if "coqchk" in thm:
+        cov["coqchk"] = {"ok": thm["coqchk"]["ok"], "axioms_of_all_loaded_libraries": thm["coqchk"]["axioms"]}
     cov.update(coverage)
     ev = {
         "property_id": ctx.pid, "tier": ctx.tier, "seed": ctx.seed, "level": "proof",
